@@ -649,7 +649,7 @@ pub fn gen_shape_program(r: &mut Rng, id: u64, thorough: bool, level: u32) -> Pr
     for _ in 0..ntail {
         let k = r.pick(&pool).clone();
         let op = if level >= 2 {
-            let top = if level >= 3 { 100 } else { 85 };
+            let top = match level { 2 => 85, 3 => 95, _ => 100 };
             match r.below(top) {
                 0..=34 => Op::Insert(k, val(r)),
                 35..=52 => Op::Remove(k),
